@@ -110,6 +110,9 @@ PAYLOAD_BYTES = {
     "B0": [b""],
     "B1": [b"\x00\x01\xff<?xml not really \r\n\x1a"],
     "B2": [bytes(range(256)) * 3],
+    # an SVG picture as an editor exports it: a DOCTYPE with an internal entity, a generator comment (compared byte for byte)
+    "BS": [b'<?xml version="1.0" encoding="UTF-8"?>\n<!-- Generator: some editor -->\n<!DOCTYPE svg [ <!ENTITY brand "ACME"> ]>\n'
+           b'<svg xmlns="http://www.w3.org/2000/svg" width="10" height="10"><title>&brand; logo</title><rect width="10" height="10"/></svg>\n'],
     "G1": [b'<?xml version="1.0"?>\n<doc a = "1"   b=\'2\'>  <e/>\n text &amp; more <![CDATA[<raw>]]></doc>\n'],
     "G2": [b"<root xmlns='urn:x'><child>\xc3\xa9</child></root>"],
     "X": [_slide("first", 0), _slide("first", 1), _slide("first", 2)],
